@@ -12,9 +12,9 @@ use std::collections::{BTreeSet, HashSet, VecDeque};
 pub const DEF: PropDef = PropDef {
     id: "C04",
     level: "model_checking",
-    rule: "states = physical fingerprints (hook H3) of the real DatasetIndex reached by op sequences over 12 quads (s,o in {1,2}, p=1, g in {Default,N7,N8}) + graph create/clear/drop + clear + rebuild + facade aliases; in every state the complete observation table (all lookup shapes x graphs, named/merged/quads/membership/listing, QueryBuilder) is compared with a BTreeSet model; non-trivial = state with >=2 quads in >=2 graphs or an empty named graph; distinct = distinct physical fingerprints",
+    rule: "states = physical fingerprints (hook H3) of the real DatasetIndex reached by op sequences over 12 quads, in two term universes (s,o in {1,2} with p=1; p in {1,5}, o in {1,2} with s=1), g in {Default,N7,N8} + graph create/clear/drop + clear + rebuild + facade aliases; in every state the complete observation table (all lookup shapes x graphs, named/merged/quads/membership/listing, QueryBuilder) is compared with a BTreeSet model; non-trivial = state with >=2 quads in >=2 graphs or an empty named graph; distinct = distinct physical fingerprints",
     assumptions: &[
-        "term/graph universe: s,o in {1,2}, p=1, graphs Default,N7,N8 (+absent ids 3,5,N9 in lookups)",
+        "two term universes of 12 quads each: (s,o in {1,2}, p=1) and (s=1, p in {1,5}, o in {1,2}); graphs Default,N7,N8 (+absent ids 3,N9 in lookups)",
         "reference model: BTreeSet of quads + BTreeSet catalog (harness/src/props/c04.rs)",
         "fingerprint de-duplication is sound because the H3 fingerprint dumps the complete private state",
     ],
@@ -25,6 +25,24 @@ pub const DEF: PropDef = PropDef {
 };
 
 const GRAPHS: [GraphId; 3] = [GraphId::Default, GraphId::Named(7), GraphId::Named(8)];
+
+/// Two term universes of the same size (12 quads): universe 0 varies subject and object under one
+/// predicate, universe 1 varies predicate and object under one subject, so that every nested
+/// index (gspo, gpos, gosp, spog) sees more than one key at every level in one of them.
+static UNIVERSE: std::sync::atomic::AtomicUsize = std::sync::atomic::AtomicUsize::new(0);
+
+fn set_universe(u: usize) {
+    UNIVERSE.store(u, std::sync::atomic::Ordering::SeqCst);
+}
+
+/// the triple denoted by the op coordinates (a, b)
+fn spo(a: u32, b: u32) -> (u32, u32, u32) {
+    if UNIVERSE.load(std::sync::atomic::Ordering::SeqCst) == 0 {
+        (a, 1, b)
+    } else {
+        (1, if a == 1 { 1 } else { 5 }, b)
+    }
+}
 
 #[derive(Clone, Debug, PartialEq, Eq, Hash)]
 pub enum Op {
@@ -112,9 +130,15 @@ impl Model {
                 if let Some(n) = gname(g) {
                     self.catalog.insert(n);
                 }
-                Some(self.quads.insert((s, 1, o, g)))
+                {
+                    let t = spo(s, o);
+                    Some(self.quads.insert((t.0, t.1, t.2, g)))
+                }
             }
-            Op::Delete(s, o, g) | Op::FacadeDeleteQuad(s, o, g) => Some(self.quads.remove(&(s, 1, o, GRAPHS[g]))),
+            Op::Delete(s, o, g) | Op::FacadeDeleteQuad(s, o, g) => {
+                let t = spo(s, o);
+                Some(self.quads.remove(&(t.0, t.1, t.2, GRAPHS[g])))
+            }
             Op::Create(g) => match gname(GRAPHS[g]) {
                 None => Some(false),
                 Some(n) => Some(self.catalog.insert(n)),
@@ -145,11 +169,18 @@ impl Model {
             }
             Op::Rebuild => None,
             Op::FacadeAddTriple(s, o) => {
-                self.quads.insert((s, 1, o, GraphId::Default));
+                let t = spo(s, o);
+                self.quads.insert((t.0, t.1, t.2, GraphId::Default));
                 None
             }
-            Op::AliasInsert(s, o) => Some(self.quads.insert((s, 1, o, GraphId::Default))),
-            Op::FacadeDeleteTriple(s, o) | Op::AliasDelete(s, o) => Some(self.quads.remove(&(s, 1, o, GraphId::Default))),
+            Op::AliasInsert(s, o) => {
+                let t = spo(s, o);
+                Some(self.quads.insert((t.0, t.1, t.2, GraphId::Default)))
+            }
+            Op::FacadeDeleteTriple(s, o) | Op::AliasDelete(s, o) => {
+                let t = spo(s, o);
+                Some(self.quads.remove(&(t.0, t.1, t.2, GraphId::Default)))
+            }
         }
     }
 }
@@ -167,7 +198,14 @@ fn fresh_db() -> SparqlDatabase {
 }
 
 fn apply_real(db: &mut SparqlDatabase, op: &Op) -> Option<bool> {
-    let q = |s: u32, o: u32, g: usize| Quad { subject: s, predicate: 1, object: o, graph: GRAPHS[g] };
+    let q = |s: u32, o: u32, g: usize| {
+        let t = spo(s, o);
+        Quad { subject: t.0, predicate: t.1, object: t.2, graph: GRAPHS[g] }
+    };
+    let tr = |s: u32, o: u32| {
+        let t = spo(s, o);
+        Triple { subject: t.0, predicate: t.1, object: t.2 }
+    };
     match *op {
         Op::Insert(s, o, g) => Some(db.dataset_index.insert_quad(&q(s, o, g))),
         Op::Delete(s, o, g) => Some(db.dataset_index.delete_quad(&q(s, o, g))),
@@ -186,14 +224,14 @@ fn apply_real(db: &mut SparqlDatabase, op: &Op) -> Option<bool> {
             None
         }
         Op::FacadeAddTriple(s, o) => {
-            db.add_triple(Triple { subject: s, predicate: 1, object: o });
+            db.add_triple(tr(s, o));
             None
         }
-        Op::FacadeDeleteTriple(s, o) => Some(db.delete_triple(&Triple { subject: s, predicate: 1, object: o })),
+        Op::FacadeDeleteTriple(s, o) => Some(db.delete_triple(&tr(s, o))),
         Op::FacadeAddQuad(s, o, g) => Some(db.add_quad(q(s, o, g))),
         Op::FacadeDeleteQuad(s, o, g) => Some(db.delete_quad(&q(s, o, g))),
-        Op::AliasInsert(s, o) => Some(db.dataset_index.insert(&Triple { subject: s, predicate: 1, object: o })),
-        Op::AliasDelete(s, o) => Some(db.dataset_index.delete(&Triple { subject: s, predicate: 1, object: o })),
+        Op::AliasInsert(s, o) => Some(db.dataset_index.insert(&tr(s, o))),
+        Op::AliasDelete(s, o) => Some(db.dataset_index.delete(&tr(s, o))),
     }
 }
 
@@ -312,23 +350,25 @@ pub fn observe(db: &SparqlDatabase, m: &Model) -> Result<u64, String> {
     }
     // membership
     for s in 1..=3u32 {
+      for p in [1u32, 5] {
         for o in 1..=3u32 {
             for &g in &all_graphs {
-                let q = Quad { subject: s, predicate: 1, object: o, graph: g };
+                let q = Quad { subject: s, predicate: p, object: o, graph: g };
                 lookups += 1;
-                if idx.contains_quad(&q) != m.quads.contains(&(s, 1, o, g)) {
-                    return Err(format!("contains_quad({:?}) = {}, model says {}", q, idx.contains_quad(&q), m.quads.contains(&(s, 1, o, g))));
+                if idx.contains_quad(&q) != m.quads.contains(&(s, p, o, g)) {
+                    return Err(format!("contains_quad({:?}) = {}, model says {}", q, idx.contains_quad(&q), m.quads.contains(&(s, p, o, g))));
                 }
             }
-            let t = Triple { subject: s, predicate: 1, object: o };
+            let t = Triple { subject: s, predicate: p, object: o };
             let mut got = idx.graphs_for_triple(&t);
             got.sort();
-            let exp: Vec<GraphId> = m.quads.iter().filter(|q| q.0 == s && q.2 == o).map(|q| q.3).collect::<BTreeSet<_>>().into_iter().collect();
+            let exp: Vec<GraphId> = m.quads.iter().filter(|q| q.0 == s && q.1 == p && q.2 == o).map(|q| q.3).collect::<BTreeSet<_>>().into_iter().collect();
             lookups += 1;
             if got != exp {
                 return Err(format!("graphs_for_triple({:?}) = {:?}, expected {:?}", t, got, exp));
             }
         }
+      }
     }
     // snapshots and listing
     let got = sorted_quads(idx.all_quads());
@@ -379,7 +419,7 @@ pub fn observe(db: &SparqlDatabase, m: &Model) -> Result<u64, String> {
             return Err(format!("QueryBuilder.with_subject(t{}) = {:?}, expected {:?}", s, got, exp));
         }
         let got: Vec<(u32, u32, u32)> = db.query().with_predicate(&name(1)).with_object(&name(s)).get_triples().into_iter().map(|t| (t.subject, t.predicate, t.object)).collect();
-        let exp: Vec<(u32, u32, u32)> = m.quads.iter().filter(|q| q.3 == GraphId::Default && q.2 == s).map(|q| (q.0, q.1, q.2)).collect();
+        let exp: Vec<(u32, u32, u32)> = m.quads.iter().filter(|q| q.3 == GraphId::Default && q.1 == 1 && q.2 == s).map(|q| (q.0, q.1, q.2)).collect();
         lookups += 1;
         if got != exp {
             return Err(format!("QueryBuilder.with_object(t{}) = {:?}, expected {:?}", s, got, exp));
@@ -423,7 +463,8 @@ fn fail_seq(out: &mut ShardOut, ops: &[Op], step: usize, msg: String) {
     if ops[..=step].iter().any(|o| matches!(o, Op::Rebuild)) {
         tags.push("uses_rebuild".into());
     }
-    out.fail(json!({"ops": upto}), "read_path_disagrees_with_model", msg, std::mem::take(&mut tags));
+    tags.push(format!("universe={}", UNIVERSE.load(std::sync::atomic::Ordering::SeqCst)));
+    out.fail(json!({"ops": upto, "universe": UNIVERSE.load(std::sync::atomic::Ordering::SeqCst)}), "read_path_disagrees_with_model", msg, std::mem::take(&mut tags));
 }
 
 /// apply the last op of `ops` to (db, m); check the return value and (if `observe_it`) the table
@@ -477,6 +518,15 @@ fn dfs(db: &SparqlDatabase, m: &Model, ops: &mut Vec<Op>, depth: usize, alpha: &
 }
 
 fn run(ctx: &Ctx) -> ShardOut {
+    set_universe(0);
+    let mut out = run_one(ctx, 0);
+    set_universe(1);
+    out.merge(run_one(ctx, 1 % ctx.nshards));
+    set_universe(0);
+    out
+}
+
+fn run_one(ctx: &Ctx, bfs_shard: usize) -> ShardOut {
     let mut out = ShardOut::default();
     let full = alphabet(true);
     let core = alphabet(false);
@@ -513,7 +563,7 @@ fn run(ctx: &Ctx) -> ShardOut {
     }
 
     // Part 2: breadth-first search with de-duplication on the physical fingerprint.
-    if ctx.shard != 0 {
+    if ctx.shard != bfs_shard {
         return out;
     }
     let max_depth: u64 = 64;
@@ -587,6 +637,7 @@ fn run(ctx: &Ctx) -> ShardOut {
 
 fn replay(_ctx: &Ctx, case: &Value) -> ShardOut {
     let mut out = ShardOut::default();
+    set_universe(case["universe"].as_u64().unwrap_or(0) as usize);
     let ops: Vec<Op> = case["ops"].as_array().map(|a| a.iter().filter_map(|v| v.as_str().and_then(parse_op)).collect()).unwrap_or_default();
     out.evaluations = 1;
     if let Err((step, msg)) = run_sequence(&ops) {
